@@ -1,4 +1,186 @@
 package main
 
+import (
+	"bytes"
+	"go/ast"
+	"go/printer"
+	"go/token"
+	"sort"
+	"strconv"
+)
+
+// c19Src prints an expression exactly as gofmt would
+func c19Src(rel string, e ast.Node) string {
+	var b bytes.Buffer
+	if err := printer.Fprint(&b, load(rel).fset, e); err != nil {
+		fail("print: %v", err)
+	}
+	return b.String()
+}
+
+// c19Conds: every comparison (==, !=, <, >, <=, >=) inside fn, source order, as source text
+func c19Conds(rel string, fd *ast.FuncDecl) []string {
+	var res []string
+	ast.Inspect(fd, func(n ast.Node) bool {
+		if b, ok := n.(*ast.BinaryExpr); ok {
+			switch b.Op {
+			case token.EQL, token.NEQ, token.LSS, token.GTR, token.LEQ, token.GEQ:
+				res = append(res, c19Src(rel, b))
+			}
+		}
+		return true
+	})
+	return res
+}
+
+// c19Ranges: the expressions ranged over inside fn, source order
+func c19Ranges(rel string, fd *ast.FuncDecl) []string {
+	var res []string
+	ast.Inspect(fd, func(n ast.Node) bool {
+		if r, ok := n.(*ast.RangeStmt); ok {
+			res = append(res, c19Src(rel, r.X))
+		}
+		return true
+	})
+	return res
+}
+
+func c19CharOrInt(e ast.Expr, what string) int {
+	s, ok := lit(e)
+	if !ok {
+		fail("%s: not a literal", what)
+	}
+	if len(s) > 0 && s[0] == '\'' {
+		r, _, _, err := strconv.UnquoteChar(s[1:len(s)-1], '\'')
+		if err != nil {
+			fail("%s: %v", what, err)
+		}
+		return int(r)
+	}
+	i, err := strconv.ParseInt(s, 0, 64)
+	if err != nil {
+		fail("%s: %v", what, err)
+	}
+	return int(i)
+}
+
 func factsC19() {
+	// ---- C19
+	back := "pkg/converters/ingress/annotations/backend.go"
+	// var asciiSpace = [256]uint8{'\t': 1, ...}
+	var tblLen int
+	type kv struct{ k, v int }
+	var kvs []kv
+	found := false
+	for _, d := range load(back).f.Decls {
+		gd, ok := d.(*ast.GenDecl)
+		if !ok {
+			continue
+		}
+		for _, sp := range gd.Specs {
+			vs, ok := sp.(*ast.ValueSpec)
+			if !ok || len(vs.Names) != 1 || vs.Names[0].Name != "asciiSpace" || len(vs.Values) != 1 {
+				continue
+			}
+			cl, ok := vs.Values[0].(*ast.CompositeLit)
+			if !ok {
+				fail("asciiSpace: not a composite literal")
+			}
+			at, ok := cl.Type.(*ast.ArrayType)
+			if !ok || at.Len == nil {
+				fail("asciiSpace: not an array type")
+			}
+			tblLen = c19CharOrInt(at.Len, "asciiSpace length")
+			if id, ok := at.Elt.(*ast.Ident); !ok || id.Name != "uint8" {
+				fail("asciiSpace: element type is not uint8")
+			}
+			for _, el := range cl.Elts {
+				p, ok := el.(*ast.KeyValueExpr)
+				if !ok {
+					fail("asciiSpace: positional element")
+				}
+				kvs = append(kvs, kv{c19CharOrInt(p.Key, "asciiSpace key"), c19CharOrInt(p.Value, "asciiSpace value")})
+			}
+			found = true
+		}
+	}
+	if !found {
+		fail("%s: var asciiSpace not found", back)
+	}
+	sort.Slice(kvs, func(i, j int) bool { return kvs[i].k < kvs[j].k })
+	keys := make([]int, len(kvs))
+	vals := make([]int, len(kvs))
+	for i, p := range kvs {
+		keys[i], vals[i] = p.k, p.v
+	}
+	addInt("c19AsciiSpaceLen", itoa(tblLen), "backend.go: length of the asciiSpace array")
+	addNatList("c19AsciiSpaceKeys", keys, "backend.go: indices set in the asciiSpace literal (sorted)")
+	addNatList("c19AsciiSpaceVals", vals, "backend.go: values of the asciiSpace literal, same order as c19AsciiSpaceKeys")
+
+	ft := funcDecl(back, "firstToken")
+	addStrList("c19FirstTokenConds", c19Conds(back, ft), "backend.go firstToken: comparisons in source order")
+	var rets []string
+	ast.Inspect(ft, func(n ast.Node) bool {
+		if r, ok := n.(*ast.ReturnStmt); ok && len(r.Results) == 1 {
+			rets = append(rets, c19Src(back, r.Results[0]))
+		}
+		return true
+	})
+	addStrList("c19FirstTokenReturns", rets, "backend.go firstToken: returned expressions")
+
+	cc := methodDecl(back, "updater", "buildBackendCustomConfig")
+	addStrList("c19CustomConfigConds", c19Conds(back, cc), "backend.go buildBackendCustomConfig: comparisons in source order")
+	addStrList("c19CustomConfigRanges", c19Ranges(back, cc), "backend.go buildBackendCustomConfig: ranged expressions in source order")
+	var assigns []string
+	nret := 0
+	ast.Inspect(cc, func(n ast.Node) bool {
+		switch a := n.(type) {
+		case *ast.AssignStmt:
+			if len(a.Lhs) == 1 && len(a.Rhs) == 1 {
+				if _, ok := a.Lhs[0].(*ast.SelectorExpr); ok {
+					assigns = append(assigns, c19Src(back, a.Lhs[0])+" "+a.Tok.String()+" "+c19Src(back, a.Rhs[0]))
+				}
+			}
+		case *ast.ReturnStmt:
+			nret++
+		}
+		return true
+	})
+	addStrList("c19CustomConfigAssigns", assigns, "backend.go buildBackendCustomConfig: assignments to fields")
+	addInt("c19CustomConfigReturns", itoa(nret), "backend.go buildBackendCustomConfig: number of early returns")
+	addStrList("c19CustomConfigInput", []string{
+		one(callArgsSrc(back, cc, "d.mapper.Get"), "mapper.Get in buildBackendCustomConfig"),
+		one(callArgsSrc(back, cc, "utils.LineToSlice"), "LineToSlice in buildBackendCustomConfig"),
+	}, "backend.go buildBackendCustomConfig: argument of d.mapper.Get and of utils.LineToSlice")
+
+	ut := "pkg/utils/utils.go"
+	ls := funcDecl(ut, "LineToSlice")
+	addStrList("c19LineToSliceConds", c19Conds(ut, ls), "utils.go LineToSlice: comparisons")
+	var lsret []string
+	ast.Inspect(ls, func(n ast.Node) bool {
+		if r, ok := n.(*ast.ReturnStmt); ok && len(r.Results) == 1 {
+			lsret = append(lsret, c19Src(ut, r.Results[0]))
+		}
+		return true
+	})
+	addStrList("c19LineToSliceReturns", lsret, "utils.go LineToSlice: returned expressions")
+}
+
+// callArgsSrc: source text of all arguments of every call of callee inside fd (joined by ", ")
+func callArgsSrc(rel string, fd *ast.FuncDecl, callee string) []string {
+	var res []string
+	ast.Inspect(fd, func(n ast.Node) bool {
+		if c, ok := n.(*ast.CallExpr); ok && calleeName(c.Fun) == callee {
+			s := ""
+			for i, a := range c.Args {
+				if i > 0 {
+					s += ", "
+				}
+				s += c19Src(rel, a)
+			}
+			res = append(res, s)
+		}
+		return true
+	})
+	return res
 }
